@@ -18,7 +18,7 @@ import vlib
 LEVEL = "exploration"
 MANIFEST = dict(cat=LEVEL, ref="DESIGN.md 3.8, 6 (C30)",
     tech="TLA+ oracle LeafSearch.tla (Search = plain binary search, checked by TLC on every generated page) evaluated by TLC over generated key sets and descriptors of large pages; every page built on the real LeafNodeMut with insert_at_end and every probe answered by find_key, find_key_simd, the scalar narrowing and the AVX2 narrowing (public in simd_scan.rs), compared with the model's answer",
-    text="for every subset of a 26-key universe (two 4-byte prefixes x 10 suffixes, 3 keys shorter than 4 bytes, zero-padding ties) up to 2 (quick) / 4 (thorough) keys, seeded random subsets of every size 0..26, and pages of 7..400 keys with runs of equal 4-byte prefixes placed across the batch windows of the narrowing loops, every universe key and every gap as probe: find_key reports the model's found position / insertion point, for the dispatching entry point and for the scalar and AVX2 narrowing variants separately, and each narrowing bracket contains the answer",
+    text="for every subset of a 26-key universe (two 4-byte prefixes x 10 suffixes, 3 keys shorter than 4 bytes, zero-padding ties) up to 3 (quick) / 4 (thorough) keys, seeded random subsets of every size 0..26, and pages of 7..400 keys with runs of equal 4-byte prefixes placed across the batch windows of the narrowing loops, every universe key and every gap as probe: find_key reports the model's found position / insertion point, for the dispatching entry point and for the scalar and AVX2 narrowing variants separately, and each narrowing bracket contains the answer",
     note="the AVX2 variant is exercised only on a CPU that has AVX2 (stated in the evidence); the NEON variant is never run on x86-64; the final binary-search phase used after a forced narrowing variant is a copy of the one in find_key_simd (find_key_simd itself is also called unmodified)")
 
 SELFTEST = os.environ.get("VERIF_SELFTEST") == "1"
@@ -31,12 +31,12 @@ def _gen(chk, thorough):
 
     def sub():
         cfg = vlib.scratch() + "/ls_sub.cfg"
-        open(cfg, "w").write(open(os.path.join(vlib.SPEC, "Gen_LeafSearch_subsets.cfg")).read().replace("Bound = 3", "Bound = %d" % (4 if thorough else 2)))
+        open(cfg, "w").write(open(os.path.join(vlib.SPEC, "Gen_LeafSearch_subsets.cfg")).read().replace("Bound = 3", "Bound = %d" % (4 if thorough else 3)))
         out["sub"] = vlib.tlc_emit("MC_LeafSearch.tla", cfg, timeout=2400, workers=6 if thorough else 3)
 
     def walk():
         out["walk"] = vlib.tlc_emit("MC_LeafSearch.tla", os.path.join(vlib.SPEC, "Gen_LeafSearch_walk.cfg"), timeout=2400, workers=1,
-                                    simulate="num=%d" % (60 if thorough else 6), seed=chk.seed, extra=["-depth", "27"])
+                                    simulate="num=%d" % (60 if thorough else 12), seed=chk.seed, extra=["-depth", "27"])
 
     def desc():
         cfg = vlib.scratch() + "/ls_desc.cfg"
@@ -184,7 +184,7 @@ def run(chk):
         "pages": len(cases), "pages_by_generator": {s: sum(1 for c in cases if c["src"] == s) for s in ("sub", "walk", "desc")},
         "page_sizes": {str(k): v for k, v in sorted(sizes.items())}, "variants": sorted(variants), "avx2_available": "avx2" in variants,
         "classes": classes, "tlc_states": {k: gen[k]["stats"].get("distinct") for k in gen},
-        "selftest_old_avx2_rejections": st, "exhaustive_subset_bound": 4 if thorough else 2,
+        "selftest_old_avx2_rejections": st, "exhaustive_subset_bound": 4 if thorough else 3,
         "samples": [{k: v for k, v in c.items() if k not in ("probes", "answers")} for c in (cases[5], cases[-1])],
     }
     if "avx2" not in variants:
